@@ -112,7 +112,7 @@ def run_history(chk, uni, drv, rng, length, stats):
                 op = {"op": "attach", "p": p, "stage": run.nstages[p]}
             elif r < 0.61:
                 # not an operation of the model: a suspended instrumented generator is advanced one step
-                op = {"op": "resume", "how": rng.choice(["next", "next", "close", "drop"])}
+                op = {"op": "resume", "how": rng.choice(["next", "next", "close", "drop", "short-start", "short-end"])}
                 out = run.step(op)
                 chk.dist("resume:" + op["how"])
                 if out != {"context_same": True}:
